@@ -375,7 +375,7 @@ theorem splitLines_text (ts : List Triple) (hne : ts ≠ []) (hok : ∀ x ∈ ts
 /-- the scan phase reads the emitted text back as: the summary, one unit per entry, two empty units -/
 theorem scanPhase_text (D : Str) (ts : List Triple) (hne : ts ≠ []) (hok : ∀ x ∈ ts, TripleOK' x)
     (hmargin : ∀ x ∈ ts, AtMargin x.1)
-    (hDne : D ≠ []) (hDt : Trimmed D) (hP : 'P' ∉ D) (hDnl : '\n' ∉ D)
+    (hDne : D ≠ []) (hDt : Trimmed D) (hP : 'P' ∉ D)
     (hsep : otherSeparators (textN D ts) = false) :
     scanPhase .numpydoc (textN D ts) =
       .ok { doc := D, args := ts.map unitOf ++ [[[]], [[]]], rets := .lines [], afterward := none } := by
@@ -439,6 +439,117 @@ theorem scanPhase_text (D : Str) (ts : List Triple) (hne : ts ≠ []) (hok : ∀
   simp only [retsEmpty, List.isEmpty_nil, Bool.true_and, hrs]
   have hnempty : (ts.map unitOf ++ [[[]], [[]]]).isEmpty = false := by simp
   simp [hnempty, setNs]
+
+/-! ### the parse phase on the scanned units -/
+
+theorem parseNumpy_blank : parseNumpy [[]] = .ok none := by decide
+
+theorem parseNumpy_unit (x : Triple) (hx : TripleOK' x) (hnt : Trimmed x.1) :
+    parseNumpy (unitOf x) = .ok (some (x.1, { typ := some x.2.2, doc := some x.2.1 })) :=
+  parseNumpy_emitted x.1 x.2.2 x.2.1 hx.1.noColon hx.1.ne hnt hx.2.2.trimmed hx.2.2.ne hx.2.1.1.trimmed
+
+theorem interpolateReq_plain (d t : Str) (hd : DocOK d) (e : Bool) :
+    interpolateReq { typ := some t, doc := some d } false e = .ok { typ := some t, doc := some d } := by
+  unfold interpolateReq
+  rw [interpolate_nodefault _ d hd rfl e]
+  simp [Res.bind]
+
+theorem parseEntries_tail (e : Bool) (flag : Bool) :
+    parseEntries .numpydoc e false true [[[]], [[]]] flag = .ok ([], flag) := by
+  simp [parseEntries, parseNumpy_blank, Res.bind]
+
+theorem parseEntries_units (e : Bool) : ∀ (ts : List Triple),
+    (∀ x ∈ ts, TripleOK' x) → (∀ x ∈ ts, Trimmed x.1) →
+    parseEntries .numpydoc e false true (ts.map unitOf ++ [[[]], [[]]]) false = .ok (ts.map entryOf, false)
+  | [], _, _ => by simpa using parseEntries_tail e false
+  | x :: ts, hok, hnt => by
+    have hx := hok x (by simp)
+    have ih := parseEntries_units e ts (fun y hy => hok y (by simp [hy])) (fun y hy => hnt y (by simp [hy]))
+    have hsn := setNameAndType_plain x.1 x.2.1 (some x.2.2) hx.1 hx.2.1.1 (by intro t ht; cases ht; exact hx.2.2)
+    have hsn' : setNameAndType (some x.1) { typ := some x.2.2, doc := some x.2.1 } false true =
+        .ok (x.1, { typ := some x.2.2, doc := some x.2.1 }) := hsn
+    simp only [List.map_cons, List.cons_append, parseEntries, parseNumpy_unit x hx (hnt x (by simp)), Res.bind,
+      interpolateReq_plain x.2.1 x.2.2 hx.2.1.1 e]
+    have hne : ((Res.ok (some (x.1, ({ typ := some x.2.2, doc := some x.2.1 } : Param))) : Res (Option (Str × Param))) ==
+        Res.raises "StopIteration") = false := by simp
+    simp only [hne, Bool.false_eq_true, if_false, Option.isNone_none, Bool.true_or, Bool.not_true, Bool.or_false, hsn', ih]
+    rfl
+
+theorem dedup_nodup : ∀ (l acc : List (Str × Param)), ((acc ++ l).map (·.1)).Nodup →
+    l.foldl (fun acc kp => if acc.any (·.1 == kp.1) then acc.map (fun q => if q.1 == kp.1 then kp else q) else acc ++ [kp]) acc
+      = acc ++ l
+  | [], acc, _ => by simp
+  | kp :: l, acc, h => by
+    have hnot : acc.any (·.1 == kp.1) = false := by
+      rw [List.any_eq_false]
+      intro q hq hqe
+      have hqk : q.1 = kp.1 := by simpa using hqe
+      have : (acc ++ kp :: l).map (·.1) = acc.map (·.1) ++ kp.1 :: l.map (·.1) := by simp
+      rw [this] at h
+      have hdisj := (List.nodup_append.mp h).2.2
+      exact hdisj q.1 (List.mem_map_of_mem hq) kp.1 (by simp) hqk
+    simp only [List.foldl_cons, hnot, Bool.false_eq_true, if_false]
+    have := dedup_nodup l (acc ++ [kp]) (by simpa using h)
+    rw [this]
+    simp
+
+theorem dedupKeepLast_nodup (l : List (Str × Param)) (h : (l.map (·.1)).Nodup) : dedupKeepLast l = l := by
+  unfold dedupKeepLast
+  have := dedup_nodup l [] (by simpa using h)
+  simpa using this
+
+theorem entryOf_names (ts : List Triple) : (ts.map entryOf).map (·.1) = ts.map (·.1) := by
+  simp [entryOf, List.map_map, Function.comp_def]
+
+/-! ### the round trip -/
+
+theorem endsWith_colon_head (n t : Str) (hne : t ≠ []) (h : endsWith t [':'] = false) : endsWith (headLine n t) [':'] = false := by
+  unfold endsWith at h ⊢
+  unfold headLine
+  cases hr : t.reverse with
+  | nil => exact absurd (List.reverse_eq_nil_iff.mp hr) hne
+  | cons c r =>
+    rw [hr] at h
+    simp only [List.reverse_append, hr, List.cons_append]
+    simpa [List.isPrefixOf] using h
+
+theorem parse_text (D : Str) (ts : List Triple) (hne : ts ≠ []) (hok : ∀ x ∈ ts, TripleOK' x)
+    (hmargin : ∀ x ∈ ts, AtMargin x.1) (hnt : ∀ x ∈ ts, Trimmed x.1)
+    (hcolon : ∀ x ∈ ts, endsWith x.2.2 [':'] = false)
+    (hDne : D ≠ []) (hDt : Trimmed D) (hP : 'P' ∉ D)
+    (hsep : otherSeparators (textN D ts) = false) (hnd : (ts.map (·.1)).Nodup) (e : Bool) :
+    parseDocstring .numpydoc (textN D ts) e = .ok (mkIR D ts) := by
+  unfold parseDocstring
+  rw [scanPhase_text D ts hne hok hmargin hDne hDt hP hsep]
+  simp only [Res.bind]
+  have hidx : (ts.map unitOf ++ [[[]], [[]]]).findIdx? startsSection = none := by
+    rw [List.findIdx?_eq_none_iff]
+    intro u hu
+    simp only [List.mem_append, List.mem_map, List.mem_cons, List.not_mem_nil, or_false] at hu
+    rcases hu with ⟨y, hy, hyu⟩ | hu | hu
+    · rw [← hyu]
+      simp only [unitOf, startsSection]
+      exact endsWith_colon_head y.1 y.2.2 (hok y hy).2.2.ne (hcolon y hy)
+    · subst hu; decide
+    · subst hu; decide
+  simp only [hidx, parseEntries_units e ts hok hnt, retsEmpty, List.isEmpty_nil, if_true,
+    dedupKeepLast_nodup _ (by rw [entryOf_names]; exact hnd)]
+  rfl
+
+/-- **C01 (numpydoc) on the default-free domain**: a one-line summary and ≥ 1 uniquely named parameters, each with a
+    type and one line of prose, no defaults, no return entry: `emit.docstring` then `parse_docstring` is the identity and
+    raises nothing - for any number of parameters and texts of any length. (Restrictions that make the statement
+    partial: the summary does not contain the capital letter the section token starts with; names start at the left
+    margin and are trimmed; a type does not end with a colon; no line separator other than `\n` anywhere.) -/
+theorem C01_numpydoc_nodefault_partial (D : Str) (ts : List Triple) (hne : ts ≠ []) (hok : ∀ x ∈ ts, TripleOK' x)
+    (hmargin : ∀ x ∈ ts, AtMargin x.1) (hnt : ∀ x ∈ ts, Trimmed x.1)
+    (hcolon : ∀ x ∈ ts, endsWith x.2.2 [':'] = false)
+    (hDne : D ≠ []) (hDt : Trimmed D) (hP : 'P' ∉ D)
+    (hsep : otherSeparators (textN D ts) = false) (hnd : (ts.map (·.1)).Nodup) (e e' : Bool) :
+    ((emitDocstring .numpydoc (mkIR D ts) e).bind fun text => parseDocstring .numpydoc text e') = .ok (mkIR D ts) := by
+  rw [emit_text D ts hne hok e]
+  simp only [Res.bind]
+  exact parse_text D ts hne hok hmargin hnt hcolon hDne hDt hP hsep hnd e'
 
 end NumpyRT
 end Py
